@@ -427,7 +427,7 @@ pub fn property() -> Property {
             PropSub {
                 name: "names",
                 strategy: names_strategy,
-                cases: |t| t.pick(80_000, 2_500_000),
+                cases: |t| t.pick(400_000, 5_000_000),
                 run: run_names,
                 floors: &[
                     ("names-valid", 0.2),
